@@ -1064,13 +1064,20 @@ func (c *compiler) evalForExpression(node *ast.ForExpression) (interface{}, erro
 	ret := []interface{}{}
 	switch riter.Kind() {
 	case reflect.Map:
-		keys := riter.MapKeys()
-		for i := 0; i < len(keys); i++ {
-			k := keys[i]
-			v := riter.MapIndex(k)
+		type entry struct{ k, v reflect.Value }
+		var entries []entry
+		for it := riter.MapRange(); it.Next(); {
+			entries = append(entries, entry{it.Key(), it.Value()})
+		}
+		for _, e := range entries {
+			k, v := e.k, riter.MapIndex(e.k)
 			if !v.IsValid() {
-				// the entry was removed by an earlier iteration
-				continue
+				if k.Equal(k) {
+					// the entry was removed by an earlier iteration
+					continue
+				}
+				// a key that is not equal to itself (NaN) cannot be looked up
+				v = e.v
 			}
 
 			c.ctx.Set(node.KeyName, k.Interface())
